@@ -5,7 +5,8 @@ import OsacaVerif.Lemmas.DGraph
   C06 — Store-to-load dependencies through provably equal addresses on both ISAs.
 
   `DG.isMemload st ld-instruction state` is the model of `is_memload` (with the AArch64 prefix repair);
-  `DG.updateState` of `_update_reg_changes` (with the copy-of-a-copy repair).
+  `DG.updateState` of `_update_reg_changes` (with the copy-of-a-copy repair and the repair of the sticky unknown:
+  a copy of another register into a register whose state is unknown makes it known again).
   Repaired code (repo-fix.diff, notes/C06.md): a symbolic displacement (`Mem.sym`) is comparable only with the very same
   symbol (`DG.dispDelta`); the scan starts from `DG.startState p` = the producer's changes AND its own post-index write-back.
 -/
@@ -69,34 +70,67 @@ theorem updateOne_setReg (s : RegState) (reg : Txt) (change : Option Change) :
   repeat' split
   all_goals exact ⟨_, rfl⟩
 
-/-- an unknown register stays unknown: no later reported change makes it known again -/
-theorem unknown_sticky (s : RegState) (r : Txt) (ch : List (Txt × Option Change))
-    (h : lookup s r = some none) : lookup (updateState s ch) r = some none := by
+/-- an increment of a register whose state is unknown stays unknown -/
+theorem increment_of_unknown_stays_unknown (s : RegState) (r : Txt) (v : Int)
+    (h : lookup s r = some none) : lookup (updateOne s r (some ⟨r, v⟩)) r = some none := by
+  simp [updateOne, h, lookup_setReg]
+
+/-- **a copy from a known register makes the register known** — whatever the register's own state was (tracked,
+    untouched or unknown: the repaired behaviour, `mul x4, x4, x7 ; mov x4, x2`): it is the source's origin plus the
+    source's up-to-now change plus the copy's constant -/
+theorem copy_from_known_makes_known (s : RegState) (r src : Txt) (v : Int) (c : Change) (hne : src ≠ r)
+    (hsrc : lookup s src = some (some c)) :
+    lookup (updateOne s r (some ⟨src, v⟩)) r = some (some ⟨c.name, c.value + v⟩) := by
+  simp [updateOne, hne, hsrc, lookup_setReg]
+
+/-- … a copy from an untouched register likewise (the source still holds its value at the store) -/
+theorem copy_from_untouched_makes_known (s : RegState) (r src : Txt) (v : Int) (hne : src ≠ r)
+    (hsrc : lookup s src = none) :
+    lookup (updateOne s r (some ⟨src, v⟩)) r = some (some ⟨src, v⟩) := by
+  simp [updateOne, hne, hsrc, lookup_setReg]
+
+/-- … and a copy from an unknown register is unknown -/
+theorem copy_from_unknown_is_unknown (s : RegState) (r src : Txt) (v : Int) (hne : src ≠ r)
+    (hsrc : lookup s src = some none) :
+    lookup (updateOne s r (some ⟨src, v⟩)) r = some none := by
+  simp [updateOne, hne, hsrc, lookup_setReg]
+
+/-- no change in the list overwrites `r` with a copy of another register (unknown changes and increments of `r`
+    itself are allowed, and so is anything that happens to other registers) -/
+def NoCopyInto (r : Txt) (ch : List (Txt × Option Change)) : Prop :=
+  ∀ e ∈ ch, e.1 = r → ∀ c, e.2 = some c → c.name = r
+
+/-- an unknown register stays unknown as long as it is not overwritten by a copy of another register -/
+theorem unknown_stays_without_copy (s : RegState) (r : Txt) (ch : List (Txt × Option Change))
+    (hc : NoCopyInto r ch) (h : lookup s r = some none) : lookup (updateState s ch) r = some none := by
   unfold updateState
   induction ch generalizing s with
   | nil => simpa using h
   | cons e es ih =>
     simp only [List.foldl_cons]
-    apply ih
+    apply ih _ (fun e' he' => hc e' (List.mem_cons_of_mem _ he'))
     by_cases hq : r = e.1
     · subst hq
-      cases hc : e.2 with
+      cases hc2 : e.2 with
       | none => simp [updateOne, lookup_setReg]
-      | some c => simp [updateOne, h, lookup_setReg]
+      | some c =>
+        have hn : c.name = e.1 := hc e (List.mem_cons_self ..) rfl c hc2
+        simp [updateOne, hn, h, lookup_setReg]
     · obtain ⟨v, hv⟩ := updateOne_setReg s e.1 e.2
       rw [hv, lookup_setReg]
       simp [hq, h]
 
 /-- **after an access post-indexed by a register** (`ld1 {v0.2d}, [x1], x2`, `st1 {v3.4s}, [x4], x5`): the
     post-indexed query reports `(base, None)` (Props/C03Roles `reg_changes_post_register`), the tracker records the
-    base as changed beyond reconstruction, and from then on — whatever known or unknown changes `later` follow, for
-    all displacements — no store→load dependency through that base is found. -/
+    base as changed beyond reconstruction, and from then on — whatever known or unknown changes `later` follow that
+    do not overwrite the base with a copy of another register, for all displacements — no store→load dependency
+    through that base is found. -/
 theorem no_edge_after_register_post_index (sb lb : Reg) (ds dl : Int) (s : RegState)
-    (later : List (Txt × Option Change)) :
+    (later : List (Txt × Option Change)) (hc : NoCopyInto (fullName lb) later) :
     isMemload (memOp (some sb) none 1 (some ds)) (loadIns (memOp (some lb) none 1 (some dl)))
       (updateState (updateState s [(fullName lb, none)]) later) = false := by
   apply no_edge_when_unknown
-  apply unknown_sticky
+  apply unknown_stays_without_copy _ _ _ hc
   simp [updateState, updateOne, lookup_setReg]
 
 /-- one has a base register and the other has not: never the same location -/
@@ -150,6 +184,23 @@ example : isMemload (memOp (some { pre := ofString "x", name := ofString "2" }) 
 example : isMemload (memOp (some { pre := ofString "x", name := ofString "2" }) none 1 (some 8))
     (loadIns (memOp (some { pre := ofString "x", name := ofString "2" }) none 1 (some 0)))
     (updateState [] [(ofString "x2", some ⟨ofString "x2", 8⟩)]) = true := by decide +kernel
+
+-- the repaired sticky unknown: `str d1, [x2, #8]` ; `mov x4, x2` ; `mul x4, x4, x7` ; `mov x4, x2` ; `ldr d2, [x4, #8]`
+-- — the fresh copy makes `x4` known again and the load hits the store …
+example : isMemload (memOp (some { pre := ofString "x", name := ofString "2" }) none 1 (some 8))
+    (loadIns (memOp (some { pre := ofString "x", name := ofString "4" }) none 1 (some 8)))
+    (updateState [] [(ofString "x4", some ⟨ofString "x2", 0⟩), (ofString "x4", none),
+      (ofString "x4", some ⟨ofString "x2", 0⟩)]) = true := by decide +kernel
+-- … while without the second copy (or with an increment of the unknown `x4` instead) it does not
+example : isMemload (memOp (some { pre := ofString "x", name := ofString "2" }) none 1 (some 8))
+    (loadIns (memOp (some { pre := ofString "x", name := ofString "4" }) none 1 (some 8)))
+    (updateState [] [(ofString "x4", some ⟨ofString "x2", 0⟩), (ofString "x4", none),
+      (ofString "x4", some ⟨ofString "x4", 8⟩)]) = false := by decide +kernel
+-- the same on x86: `movq %rax, 8(%rbx)` ; `movq %rbx, %rcx` ; `imulq %rdx, %rcx` ; `movq %rbx, %rcx` ; `movq 8(%rcx), %rsi`
+example : isMemload (memOp (some { name := ofString "rbx" }) none 1 (some 8))
+    (loadIns (memOp (some { name := ofString "rcx" }) none 1 (some 8)))
+    (updateState [] [(ofString "rcx", some ⟨ofString "rbx", 0⟩), (ofString "rcx", none),
+      (ofString "rcx", some ⟨ofString "rbx", 0⟩)]) = true := by decide +kernel
 
 /-! ### semantic soundness of the tracker (concrete register valuations, `Lemmas/Tracking.lean`)
 
